@@ -762,7 +762,20 @@ class Walker:
       cs = []
       for a, op, b in zip(vals, e.ops, vals[1:]):
         a2, b2 = self.cmp_norm(a), self.cmp_norm(b)
-        cs.append(("cmp", type(op).__name__, a2, b2))
+        opn = type(op).__name__
+        # None against None / a literal: decided here (x is None after `x = None` and an untouched loop)
+        if opn in ("Is", "IsNot", "Eq", "NotEq") and isinstance(a, Const) and isinstance(b, Const) and (a.v is None or b.v is None):
+          same = a.v is None and b.v is None
+          cs.append(("const", same if opn in ("Is", "Eq") else not same))
+          continue
+        # an integer-valued term (gcd, //, %, bit_length, sums and products) is never None
+        if opn in ("Is", "IsNot", "Eq", "NotEq"):
+          other = b if (isinstance(a, Const) and a.v is None) else (a if (isinstance(b, Const) and b.v is None) else None)
+          if isinstance(other, Poly) and (other.as_atom() is None or other.as_atom().kind in
+                                          ("gcd", "mod", "fdiv", "shr", "shl", "band", "bor", "bxor", "bitlen", "len", "isqrt", "pow", "abs", "min", "max")):
+            cs.append(("const", opn in ("IsNot", "NotEq")))
+            continue
+        cs.append(("cmp", opn, a2, b2))
       return cs[0] if len(cs) == 1 else ("and", cs)
     v = self.ev(e, st)
     if isinstance(v, tuple):
@@ -1034,6 +1047,8 @@ class Walker:
       for v, t in thyps.items():
         if v not in hyps:
           h.facts.append(("truthy" if t else "falsy", h.env[v]))
+      for v, c in chyps.items():
+        h.env[v] = c                # constant invariant: None / bool / string flag that no completed pass changes
       if is_for:
         self.bind_iter_target(n.target, itv, h, k, n)
       else:
@@ -1048,12 +1063,20 @@ class Walker:
         t = _truthiness(st.env[v], st)
         if t is not None:
           thyps[v] = t
-    while hyps or thyps:
+    # constant invariants: a None / bool / string value before the loop that every completed pass leaves in place (a pass that changes it
+    # leaves the loop by break / return: `found = None; for ..: if c: found = x; break`)
+    chyps = {}
+    for v in sorted(mod):
+      pv = st.env.get(v)
+      if isinstance(pv, Const) and (pv.v is None or isinstance(pv.v, (bool, str))) and v not in hyps and not (is_for and v in {x.id for x in ast.walk(n.target) if isinstance(x, ast.Name)}):
+        chyps[v] = pv
+    while hyps or thyps or chyps:
       self.quiet += 1
       try:
         h = head_state(hyps, thyps)
         bad = set()
         tbad = set()
+        cbad = set()
         for kind, val, s in self.block(n.body, h):
           if kind in ("fall", "continue"):
             for v, rhs in hyps.items():
@@ -1065,14 +1088,20 @@ class Walker:
               have = s.env.get(v)
               if have is None or _truthiness(have, s) is not t:
                 tbad.add(v)
+            for v, c in chyps.items():
+              have = s.env.get(v)
+              if not (isinstance(have, Const) and type(have.v) is type(c.v) and have.v == c.v):
+                cbad.add(v)
       finally:
         self.quiet -= 1
-      if not bad and not tbad:
+      if not bad and not tbad and not cbad:
         break
       for v in bad:
         hyps.pop(v)
       for v in tbad:
         thyps.pop(v)
+      for v in cbad:
+        chyps.pop(v)
     self.invariants[id(n)] = {v: ast.unparse(r) for v, r in hyps.items()}
     info["invariants"] = dict(self.invariants[id(n)])
     info["truthiness_invariants"] = dict(thyps)
@@ -1105,6 +1134,8 @@ class Walker:
       e = self.ev(rhs, after)
       if isinstance(e, Poly):
         after.env[v] = e
+    for v, c in chyps.items():
+      after.env[v] = c
     # refinement: a variable that is falsy (resp. truthy / identical) before the loop and at the end
     # of every iteration is so after normal termination
     for v in mod:
